@@ -3,3 +3,4 @@
 pub mod mpqcrypt;
 pub mod lookup3;
 pub mod mpqref;
+pub mod ptch;
